@@ -60,6 +60,8 @@ def run_case(case):
                 data = sandbox.file_bytes(f)
                 if e["pre"] == "wrong-full":
                     data = bytes(b ^ 0x2A for b in data)
+                elif e["pre"] == "sparse-full":
+                    data = None       # full recorded length, no blocks allocated (a client that pre-allocates by seeking)
                 elif e["pre"] == "shorter":
                     if not data:
                         continue
@@ -71,7 +73,10 @@ def run_case(case):
                 p = os.path.join(dest, rel)
                 os.makedirs(os.path.dirname(p), exist_ok=True)
                 with open(p, "wb") as fd:
-                    fd.write(data)
+                    if data is None:
+                        fd.truncate(f["size"])
+                    else:
+                        fd.write(data)
                 pre = True
                 cls.add("pre-" + e["pre"])
         for name, size in case.get("dest_unrelated", []):
